@@ -276,9 +276,11 @@ Definition judge_C08 : judge_t := fun m o ob pr =>
                    then (Some "already_invalid_token_not_answered_with_success", [], [])
               else if String.eqb (o_err ob) "" then
                 if live then (None, [], i :: match ci_pair c with Some p => [p] | None => [] end)
-                else if (memn i (m_used_rt m) || memn i (m_dead_creds m) || memn (ci_family c) (m_dead m)) && negb (same_probes m pr)
-                     then (Some "revocation_of_an_already_invalid_token_changed_something", [], [])
-                else (None, [], [])
+                else if (memn i (m_used_rt m) || memn i (m_dead_creds m) || memn (ci_family c) (m_dead m))
+                     then (if same_probes m pr then (None, [], []) else (Some "revocation_of_an_already_invalid_token_changed_something", [], []))
+                (* a token that only stopped being reported active (it expired, or refresh-token introspection is off) is still
+                   the owner's token: the accepted request retires it and the token issued alongside it *)
+                else (None, [], i :: match ci_pair c with Some p => [p] | None => [] end)
               else (None, [], [])
           | None =>
               if negb (String.eqb (o_err ob) "") then (Some "unknown_token_not_answered_with_success", [], [])
